@@ -32,7 +32,7 @@ def one(seed: Path, all_checks: bool) -> tuple[str, str, list[str]]:
             return seed.name, "PATCH-FAILED", [p.stderr.strip()[-200:]]
         target = "ALL" if all_checks else prop
         p = subprocess.run([str(V / "check"), target, "--root", str(d)], capture_output=True, text=True, cwd=str(V),
-                           env=dict(os.environ, VERIF_NO_EVIDENCE="1"))
+                           env=dict(os.environ, VERIF_NO_EVIDENCE="1", VERIF_SCRATCH_DIR=str(d)))
         rules = [l.strip()[:150] for l in p.stdout.splitlines() if l.startswith("  R")]
         if all_checks:
             rcs = {l.split()[1]: l.split()[2] for l in p.stdout.splitlines() if l.startswith("RESULT ")}
